@@ -1213,15 +1213,22 @@ impl<'a> Iso<'a> {
             }
         }
         self.drain()?;
-        // order: identical duplicates may be swapped freely, anything else
-        // must keep the input order
-        for w in preimage_positions.windows(2) {
-            if w[0] > w[1] && a.imports[w[0]] != a.imports[w[1]] {
-                return Err(mm(
-                    Area::Module,
-                    "gc:imports-reordered",
-                    format!("imports {:?} and {:?} changed their relative order", a.imports[w[1]], a.imports[w[0]]),
-                ));
+        // order: the preimages must appear in input order, where an import may
+        // stand in for any identical (module, field, type) duplicate of itself
+        let mut prev: Option<usize> = None;
+        for p in preimage_positions.iter() {
+            let chosen = (0..a.imports.len())
+                .filter(|q| a.imports[*q] == a.imports[*p])
+                .find(|q| prev.map(|x| *q > x).unwrap_or(true));
+            match chosen {
+                Some(q) => prev = Some(q),
+                None => {
+                    return Err(mm(
+                        Area::Module,
+                        "gc:imports-reordered",
+                        format!("import {:?} is emitted after an import that follows it in the input", a.imports[*p]),
+                    ))
+                }
             }
         }
         if !self.ambiguous_funcs.is_empty() {
